@@ -34,6 +34,7 @@ def diagnose(chk, case):
 
 
 SPEC = {
+    "structure_code": 2,
     "props_file": "C16.v",
     "targets": ["theories/Props/C16.vo", "theories/Csc/Check.vo", "theories/Csc/Examples.vo"],
     "header": HEADER,
